@@ -4,7 +4,8 @@ Statement: a method save is accepted only if it was based on the current method 
 the same version, including concurrent ones, at most one is accepted, and each accepted save increases the version by
 exactly one.
 
-Case    : {"pre": p, "saves": [{"base": -1|0|1, "reply": "ok"|"err"|"err_caller"}, ...], "schedule": ["s0","s1","c0",...]}
+Case    : {"pre": p, "saves": [{"base": -1|0|1, "reply": "ok"|"err"|"err_caller"[, "cancel": true][, "same": true]}, ...],
+           "schedule": ["s0","s1","x0","c0",...]}
           p sequential saves, each based on the version the unit reports at that moment, come first (they are judged like
           all others) and leave the method at version v0.  Then save i (user u<i>, its own method text) is posted with
           version v0 + base_i through the REAL route function
@@ -12,7 +13,10 @@ Case    : {"pre": p, "saves": [{"base": -1|0|1, "reply": "ok"|"err"|"err_caller"
           The engine end of the websocket RPC is the FakeEngineChannel of vp.harness.agg_h whose responder PARKS every
           MethodMsg on a future.  Schedule event "s<i>" posts save i, "c<i>" makes the engine's reply to save i available
           (the parked call returns; a call that reaches the engine later is answered at once; a save that was refused before
-          it reached the engine is not affected).  After every event the loop runs until nothing moves any more.
+          it reached the engine is not affected).  "x<i>" (only for saves with "cancel") cancels the request task of save i -
+          the client went away - wherever it is: queued behind another save, or parked in the engine round trip; the engine's
+          reply still becomes available at c<i>.  A save with "same" posts exactly the lines the unit has at that moment
+          (saved without an edit).  After every event the loop runs until nothing moves any more.
 Observed: a chronological log with the unit's method version at every engine receipt, every save completion and every
           event boundary.  The version can only change inside a task step that ends in one of those log entries, so each
           change is attributed to exactly one entry.
@@ -28,12 +32,16 @@ Oracle  : (1) a save that completes ACCEPTED (the route returned a version) must
                                                                    -> same-base:two-accepted  (only when not every surplus
               accepted save is already reported under (1))
           (1)-(3) together imply  final version == v0 + number of accepted saves ; it is checked as an internal assertion.
+Cancel  : a cancelled request is neither accepted nor refused for its client.  If the method version changes in a step that no
+          completing save explains, while a cancelled save that reached the engine is outstanding, that save counts as ACCEPTED at
+          that moment and rules (1), (2), (4) apply to it; without such a save the change is version-changed:outside-save.
 Refused : AggregatorCallerException (HTTP 400) / AggregatorInternalException (HTTP 500) raised by the route.  Any other
           exception propagates (harness error).
 """
 from __future__ import annotations
 
 import asyncio
+import contextvars
 import itertools
 
 from vp.core.framework import Violation
@@ -49,19 +57,36 @@ TECHNIQUE = ("exhaustive enumeration of post/engine-reply interleavings of 2-3 (
 RULE = ("All schedules of the events s_i (save i posted) and c_i (engine reply to save i available) with s_i before c_i, up to "
         "renaming of the saves (s_0 < s_1 < ... ; every assignment of bases and replies to the saves is enumerated, so each labelled "
         "ordering is covered by one canonical ordering) x base version in {current-1, current, current+1} per save x engine reply in "
-        "{ok, err, err_caller} per save x number of preliminary sequential saves. Non-trivial = at least two saves with the same "
+        "{ok, err, err_caller} per save x number of preliminary sequential saves; additional families: two saves (thorough: three) of "
+        "which one or two requests are cancelled (event x_i between s_i and c_i, every position), and saves that re-post the "
+        "unit's current lines unchanged. Non-trivial = at least two saves with the same "
         "base are in flight at the same time (the second is posted before the engine reply to the first is available). Distinct = "
         "distinct (pre, saves, schedule).")
 ASSUMPTIONS = [
     "the engine answers a MethodMsg with SuccessMessage or ErrorMessage (caller_error False is what the engine sends; True is allowed by the protocol); transport failures and disconnects during the round trip are not generated",
     "one aggregator process, one asyncio loop: the only suspension point of save_method is the engine round trip, which the schedule controls",
     "'accepted' = the save_method route returns a version; AggregatorCallerException/AggregatorInternalException = refused (HTTP 400/500)",
+    "a client may cancel its request at any time; the engine still answers the MethodMsg it received; a cancelled save whose work continues and changes the version is judged as an accepted save",
     "'current version' at acceptance = the version of the unit's method immediately before the task step in which the save completes",
 ]
+# A family: n saves, up to `cancel` of them with a cancelled request, up to `same` of them re-saving the unchanged method.
 TIERS = {
-    "quick": {"n_saves": [2, 3], "pre": [0, 1], "replies": ["ok", "err", "err_caller"], "exhaustive": True, "budget_s": 150},
-    "thorough": {"n_saves": [2, 3, 4], "pre": [0, 1, 2], "replies": ["ok", "err", "err_caller"], "replies_4": ["ok", "err"],
-                 "exhaustive": True, "budget_s": 850},
+    "quick": {"pre": [0, 1], "exhaustive": True, "budget_s": 150, "families": [
+        {"n": 2, "replies": ["ok", "err", "err_caller"]},
+        {"n": 3, "replies": ["ok", "err", "err_caller"]},
+        {"n": 2, "replies": ["ok", "err"], "cancel": 1},
+        {"n": 2, "replies": ["ok", "err"], "same": 2},
+    ]},
+    "thorough": {"pre": [0, 1, 2], "exhaustive": True, "budget_s": 850, "families": [
+        {"n": 2, "replies": ["ok", "err", "err_caller"]},
+        {"n": 3, "replies": ["ok", "err", "err_caller"]},
+        {"n": 4, "replies": ["ok", "err"]},
+        {"n": 2, "replies": ["ok", "err", "err_caller"], "cancel": 2},
+        {"n": 3, "replies": ["ok", "err"], "cancel": 1},
+        {"n": 2, "replies": ["ok", "err", "err_caller"], "same": 2},
+        {"n": 3, "replies": ["ok", "err"], "same": 1},
+        {"n": 2, "replies": ["ok", "err"], "cancel": 1, "same": 1},
+    ]},
 }
 BASES = (-1, 0, 1)
 REPLIES = ("ok", "err", "err_caller")
@@ -71,30 +96,58 @@ UNIT = "E1"
 
 # ---- schedules ---------------------------------------------------------------------------------------------
 
-def canonical_schedules(n: int):
-    """all sequences over s0..s(n-1), c0..c(n-1) with s_i before c_i and s_0 < s_1 < ... (saves are named in posting order)"""
+def canonical_schedules(n: int, cancelled=()):
+    """all sequences over the events s_i (save i posted), c_i (engine reply to save i available) and - for i in `cancelled` -
+    x_i (request i cancelled by its client) with s_i < c_i, s_i < x_i < c_i and s_0 < s_1 < ... (saves are named in posting order)"""
     out = []
+    total = 2 * n + len(cancelled)
 
-    def rec(seq, next_s, open_c):
-        if len(seq) == 2 * n:
+    def rec(seq, next_s, open_x, open_c):
+        if len(seq) == total:
             out.append(list(seq))
             return
         if next_s < n:
-            rec(seq + ["s%d" % next_s], next_s + 1, open_c + [next_s])
+            if next_s in cancelled:
+                rec(seq + ["s%d" % next_s], next_s + 1, open_x + [next_s], open_c)
+            else:
+                rec(seq + ["s%d" % next_s], next_s + 1, open_x, open_c + [next_s])
+        for i in open_x:
+            rec(seq + ["x%d" % i], next_s, [k for k in open_x if k != i], open_c + [i])
         for i in open_c:
-            rec(seq + ["c%d" % i], next_s, [k for k in open_c if k != i])
-    rec([], 0, [])
+            rec(seq + ["c%d" % i], next_s, open_x, [k for k in open_c if k != i])
+    rec([], 0, [], [])
     return out
 
 
+def _subsets(n, lo, hi):
+    for k in range(lo, hi + 1):
+        yield from itertools.combinations(range(n), k)
+
+
 def enumerate_cases(cfg):
-    for n in cfg["n_saves"]:
-        scheds = canonical_schedules(n)
-        for pre in cfg["pre"]:
-            for sched in scheds:
-                for bases in itertools.product(BASES, repeat=n):
-                    for replies in itertools.product(cfg.get("replies_%d" % n, cfg["replies"]), repeat=n):
-                        yield {"pre": pre, "saves": [{"base": b, "reply": r} for b, r in zip(bases, replies)], "schedule": sched}
+    for fam in cfg["families"]:
+        n, max_cancel, max_same = fam["n"], fam.get("cancel", 0), fam.get("same", 0)
+        # the plain family has neither; a family with cancel/same enumerates only cases that have at least one of them
+        for cancelled in _subsets(n, 0, max_cancel):
+            for same in _subsets(n, 0, max_same):
+                if (max_cancel or max_same) and not cancelled and not same:
+                    continue
+                if max_cancel and max_same and not (cancelled and same):
+                    continue
+                scheds = canonical_schedules(n, cancelled)
+                for pre in cfg["pre"]:
+                    for sched in scheds:
+                        for bases in itertools.product(BASES, repeat=n):
+                            for replies in itertools.product(fam["replies"], repeat=n):
+                                saves = []
+                                for i in range(n):
+                                    sv = {"base": bases[i], "reply": replies[i]}
+                                    if i in cancelled:
+                                        sv["cancel"] = True
+                                    if i in same:
+                                        sv["same"] = True
+                                    saves.append(sv)
+                                yield {"pre": pre, "saves": saves, "schedule": sched}
 
 
 # ---- domain guard ------------------------------------------------------------------------------------------
@@ -110,23 +163,33 @@ def _valid(case) -> bool:
     for s in saves:
         if not isinstance(s, dict) or s.get("base") not in BASES or isinstance(s.get("base"), bool) or s.get("reply") not in REPLIES:
             return False
+        if s.get("cancel", False) not in (True, False) or s.get("same", False) not in (True, False):
+            return False
     if not isinstance(sched, list) or not all(isinstance(e, str) for e in sched):
         return False
     n = len(saves)
-    want = sorted(["s%d" % i for i in range(n)] + ["c%d" % i for i in range(n)])
+    want = sorted(["s%d" % i for i in range(n)] + ["c%d" % i for i in range(n)] + ["x%d" % i for i in range(n) if saves[i].get("cancel")])
     if sorted(sched) != want:
         return False
     for i in range(n):
         if sched.index("s%d" % i) > sched.index("c%d" % i):
+            return False
+        if saves[i].get("cancel") and not sched.index("s%d" % i) < sched.index("x%d" % i) < sched.index("c%d" % i):
             return False
     return True
 
 
 # ---- execution ---------------------------------------------------------------------------------------------
 
-def _method_dto(Dto, version: int, tag: str):
+def _method_dto(Dto, version: int, tag: str, current=None):
+    """the method a client posts: its own text, or - current given - exactly the lines the unit has now (saved without an edit)"""
+    if current is not None:
+        return Dto.Method(lines=[Dto.MethodLine(id=l.id, content=l.content) for l in current.lines], version=version, last_author="")
     return Dto.Method(lines=[Dto.MethodLine(id="id_1", content="Mark: " + tag), Dto.MethodLine(id="id_2", content="")],
                       version=version, last_author="")
+
+
+_CURRENT_SAVE: contextvars.ContextVar = contextvars.ContextVar("c31_current_save", default=None)
 
 
 def _execute(case):
@@ -159,8 +222,6 @@ def _execute(case):
         reply_ready: set = set()
         received: list = []      # (save index | "p<k>", method version sent to the engine)
         bases_abs: dict = {}     # save index | "p<k>" -> base version it was posted with
-        who = {"Mark: s%d" % i: i for i in range(n)}
-        who.update({"Mark: pre%d" % k: "p%d" % k for k in range(pre)})
 
         def reply_for(i):
             kind = saves[i]["reply"]
@@ -171,7 +232,9 @@ def _execute(case):
         async def responder(msg):
             if not isinstance(msg, AM.MethodMsg):
                 raise HarnessError("unexpected rpc %r" % type(msg).__name__)
-            i = who[msg.method.lines[0].content]
+            i = _CURRENT_SAVE.get()         # set by post(); the rpc runs in the task of the save (or a task it created)
+            if i is None:
+                raise HarnessError("rpc outside a save")
             received.append((i, msg.method.version))
             log.append(("engine-receive", i, version()))
             if isinstance(i, str):              # a preliminary save: answered at once
@@ -179,28 +242,40 @@ def _execute(case):
             if i not in reply_ready:
                 fut = asyncio.get_running_loop().create_future()
                 parked[i] = fut
-                await fut
-                del parked[i]
+                try:
+                    await fut
+                finally:
+                    del parked[i]
             return reply_for(i)
         ch.responder = responder
 
-        async def post(i, base_version, tag, user):
+        async def post(i, base_version, tag, user, same=False):
             bases_abs[i] = base_version
+            _CURRENT_SAVE.set(i)
+            current = agg.get_registered_engine_data(unit_id).method if same else None
             try:
                 res = await process_unit.save_method(user_name=user, user_id="id-" + user, user_roles=set(), unit_id=unit_id,
-                                                     method_dto=_method_dto(Dto, base_version, tag), agg=agg)
+                                                     method_dto=_method_dto(Dto, base_version, tag, current), agg=agg)
             except (AggregatorCallerException, AggregatorInternalException) as ex:
                 outcome[i] = ("refused", type(ex).__name__)
                 log.append(("complete-refused", i, version()))
+                return
+            except asyncio.CancelledError:
+                # the client went away: from its view the save is neither accepted nor refused
+                outcome[i] = ("cancelled", None)
+                log.append(("complete-cancelled", i, version()))
                 return
             outcome[i] = ("accepted", res.version)
             log.append(("complete-accepted", i, version()))
 
         async def drain():
             # every step a save can take is one task step; 12 turns of the loop are far more than any chain needs and a task
-            # blocked on something else (e.g. a lock held by a parked save) simply stays blocked
+            # blocked on something else (e.g. a lock held by a parked save) simply stays blocked.  A version change that no
+            # log entry of a save explains (work continuing behind a cancelled request) is logged the turn it happens.
             for _ in range(12):
                 await asyncio.sleep(0)
+                if version() != log[-1][2]:
+                    log.append(("background", None, version()))
 
         async def scenario():
             log.append(("boundary", None, version()))
@@ -210,12 +285,19 @@ def _execute(case):
                 log.append(("boundary", None, version()))
             v0 = version()
             tasks = []
+            started: dict = {}
             for ev in sched:
                 i = int(ev[1:])
                 if ev[0] == "s":
-                    tasks.append(asyncio.ensure_future(post(i, v0 + saves[i]["base"], "s%d" % i, "u%d" % i)))
+                    tasks.append(asyncio.ensure_future(post(i, v0 + saves[i]["base"], "s%d" % i, "u%d" % i,
+                                                            bool(saves[i].get("same")))))
+                    started[i] = tasks[-1]
+                elif ev[0] == "x":
+                    if not started[i].done():
+                        started[i].cancel()
                 else:
                     reply_ready.add(i)
+                    log.append(("reply-available", i, version()))
                     if i in parked and not parked[i].done():
                         parked[i].set_result(None)
                 await drain()
@@ -228,6 +310,7 @@ def _execute(case):
                 raise HarnessError("a save never completed although every engine reply is available")
             for t in tasks:
                 t.result()          # re-raise anything unexpected
+            await drain()           # work left behind by a cancelled request
             log.append(("boundary", None, version()))
             return v0
 
@@ -254,12 +337,49 @@ def _judge(case, ex):
     primary: set = set()
     prev = log[0][2]
     accepted_steps = 0
-    for kind, i, v in log[1:]:
+    cancelled_seen: list = []      # saves whose request was cancelled so far, in log order
+    credited: set = set()          # cancelled saves a later version change has been attributed to
+    reached = {j for j, _ in ex["received"]}
+    replied: set = set()           # saves whose engine reply is available so far
+    completes_at = {e[1]: k for k, e in enumerate(log) if e[0] == "complete-accepted"}
+    early: set = set()             # accepted saves whose version change was seen (and judged) before they returned to the client
+    for pos, (kind, i, v) in enumerate(log[1:], start=1):
         delta = v - prev
-        if kind == "complete-accepted":
+        if kind == "complete-cancelled":
+            cancelled_seen.append(i)
+        if kind == "reply-available":
+            replied.add(i)
+        if kind == "complete-accepted" and i in early:
+            if delta != 0:
+                out.append(Violation("version-step:accepted:%+d" % (1 + delta), "accepted save %r changed the method version again when it "
+                                     "returned (from %d to %d)" % (i, prev, v), case))
+            prev = v
+            continue
+        background = None
+        if kind != "complete-accepted" and delta != 0:
+            # a version change in a step in which no save returns to its client.  It belongs (a) to a save that installs its method
+            # in a task of its own and returns a turn later: one whose engine reply is available, that is accepted later and returns
+            # exactly this version; else (b) to work that went on behind a cancelled request - that save then counts as accepted
+            # (its client does not learn it, but the method and its version are what the statement is about)
+            cand = [j for j, k in sorted(completes_at.items(), key=lambda jk: jk[1])
+                    if k > pos and j not in early and j in replied and j in reached and outcome[j][1] == v]
+            if cand:
+                background = ([j for j in cand if bases[j] == prev] or cand)[0]
+                early.add(background)
+            else:
+                cand = [j for j in cancelled_seen if j not in credited and j in reached and j in replied]
+                if cand:
+                    background = ([j for j in cand if bases[j] == prev] or cand)[0]
+                    credited.add(background)
+                    outcome[background] = ("accepted-after-cancel", None)
+        if kind == "complete-accepted" or background is not None:
             accepted_steps += 1
+            if background is not None:
+                i = background
+                returned = outcome[i][1] if outcome[i][1] is not None else prev + 1     # a cancelled request returns nothing
+            else:
+                returned = outcome[i][1]
             base = bases[i]
-            returned = outcome[i][1]
             if base != prev:
                 primary.add(i)
                 if posted_at.get(i) == base:
@@ -281,7 +401,8 @@ def _judge(case, ex):
                     out.append(Violation("returned-version:%+d" % (returned - (prev + 1)),
                                          "accepted save %r returned version %d, the version before it was %d" % (i, returned, prev), case))
         elif delta != 0:
-            label = {"engine-receive": "before-engine-reply", "complete-refused": "by-refused-save", "boundary": "outside-save"}[kind]
+            label = {"engine-receive": "before-engine-reply", "complete-refused": "by-refused-save", "boundary": "outside-save",
+                     "background": "outside-save", "complete-cancelled": "by-cancelled-request", "reply-available": "outside-save"}[kind]
             why = ""
             if kind == "complete-refused":
                 why = " (refused with %s, engine reply %r)" % (outcome[i][1], saves[i]["reply"] if isinstance(i, int) else "ok")
@@ -292,7 +413,7 @@ def _judge(case, ex):
     # same base, the preliminary (sequential) saves included
     by_base: dict = {}
     for i in ["p%d" % k for k in range(pre)] + list(range(n)):
-        if outcome[i][0] == "accepted":
+        if outcome[i][0] in ("accepted", "accepted-after-cancel"):
             by_base.setdefault(bases[i], []).append(i)
     for base in sorted(by_base):
         acc = by_base[base]
@@ -326,8 +447,16 @@ def _classify(case, ex):
         classes.append("overlap:same-base")
     if all(pos["c%d" % i] < pos["s%d" % (i + 1)] for i in range(n - 1)):
         classes.append("sequential")
-    acc = sum(1 for i in range(n) if ex["outcome"][i][0] == "accepted")
+    acc = sum(1 for i in range(n) if ex["outcome"][i][0] in ("accepted", "accepted-after-cancel"))
     classes.append("accepted=%d" % acc)
+    if any(s.get("cancel") for s in saves):
+        classes.append("with-cancelled-request")
+        for i in range(n):
+            if saves[i].get("cancel"):
+                where = "before-engine" if i not in {j for j, _ in ex["received"]} else "during-round-trip"
+                classes.append("cancelled:" + (where if ex["outcome"][i][0] != "refused" else "after-refusal"))
+    if any(s.get("same") for s in saves):
+        classes.append("with-unchanged-content")
     if any(s["reply"] != "ok" for s in saves):
         classes.append("with-engine-error")
     if any(s["base"] == 0 for s in saves) and any(s["base"] == 1 for s in saves):
@@ -377,6 +506,14 @@ def shrink_hints(case):
         sched = [e[0] + str(ren[int(e[1:])]) for e in case["schedule"] if int(e[1:]) != drop]
         yield {"pre": case["pre"], "saves": [s for i, s in enumerate(case["saves"]) if i != drop], "schedule": sched}
     for i, s in enumerate(case["saves"]):
+        if s.get("cancel"):
+            saves = [dict(x) for x in case["saves"]]
+            del saves[i]["cancel"]
+            yield {"pre": case["pre"], "saves": saves, "schedule": [e for e in case["schedule"] if e != "x%d" % i]}
+        if s.get("same"):
+            saves = [dict(x) for x in case["saves"]]
+            del saves[i]["same"]
+            yield {"pre": case["pre"], "saves": saves, "schedule": case["schedule"]}
         if s["reply"] != "ok":
             saves = [dict(x) for x in case["saves"]]
             saves[i]["reply"] = "ok"
